@@ -32,7 +32,7 @@ RULE = ("Hypothesis-generated memories (0-12 episodes, 1 in 20 cases 70-140 epis
         "content, the same episode stored twice), "
         "ctx.now at several instants and spellings, queries from the same vocabulary, validated t2 configs (k, "
         "threshold, tiers in any subset/order incl. duplicates/empty/unknown, recent days 0..overflowing, top-m, "
-        "ranking weights, owner scope spellings x agent incl. ''/case variants, backend label, reader mode, "
+        "ranking weights, multi-word / seam-straddling node labels, owner scope spellings x agent incl. ''/case variants, backend label, reader mode, "
         "hybrid/quality/normalizer/aliasing/lexical/MMR leaves), perf metrics gate, GEL edge sets, graphs for residual "
         "labels, slice cap t2_k, residual cap; sequential, sharded and embed-store reader paths. Non-trivial = (>=2 "
         "owners present and, under agent/world scope, a foreign episode would have ranked in the top-k) OR k "
@@ -189,9 +189,21 @@ def cases(draw):
     eps = _big_memory(draw(st.integers(0, 10 ** 6)), now_z, owners) if big else draw(_episodes(now_z, owners=owners))
     ep_words = [w for e in eps for w in (e.get("text") or "").lower().split()] or world.VOCAB
     graphs = {}
+    seam_words = []
+    texted = [e for e in eps if (e.get("text") or "").split()]
     for gid in draw(st.sampled_from([[], ["g1"], ["g1"], ["g2"], ["g1", "g2"], ["g1", "g2"], ["g2", "g1"]])):
         spec = draw(world.graph_specs(max_nodes=5, max_edges=3))
         for n in spec["nodes"]:
+            if len(texted) >= 2 and draw(st.sampled_from([False, False, False, True])):
+                # a label that straddles the seam between two episode texts (tail of one + head of another, with a
+                # space, without separator, or cut inside the words): it occurs in the concatenation of two hits but
+                # usually in no single hit, so it must not be nudged unless one hit contains it
+                ea, eb = draw(st.sampled_from(texted)), draw(st.sampled_from(texted))
+                wa, wb = ea["text"].lower().split()[-1], eb["text"].lower().split()[0]
+                lab = draw(st.sampled_from([wa + " " + wb, wa + " " + wb, wa + wb, wa[-2:] + " " + wb[:2], wa + " " + wb[:1]]))
+                n["label"] = draw(st.sampled_from([lab, lab.title(), lab.upper()]))
+                seam_words += [wa, wb]
+                continue
             # labels that do occur in episode texts (any case): residual nudges have something to match
             if draw(st.sampled_from([False, False, True])):
                 w = draw(st.sampled_from(ep_words))
@@ -245,7 +257,7 @@ def cases(draw):
             alias = draw(st.sampled_from([{"apple": "pear"}, {"kiwi": "fig plum", "app": ""}, {"pear": "apple", "apple": "pear"}]))
         t2["quality"] = q
     vec_words = [w for e in eps if e.get("vec_full") is not None and any(e["vec_full"]) for w in (e.get("text") or "").lower().split()]
-    qpool = vec_words * 2 + ep_words + world.VOCAB[:3]
+    qpool = vec_words * 2 + ep_words + world.VOCAB[:3] + seam_words * 4
     words = draw(st.one_of(st.lists(st.sampled_from(qpool), min_size=1, max_size=4), st.lists(st.sampled_from(qpool), min_size=0, max_size=4)))
     text = " ".join(words)
     if draw(st.sampled_from([False] * 5 + [True])):
